@@ -3,3 +3,5 @@ import Proofs.Toks
 import Proofs.Structure
 import Proofs.Range
 import Proofs.FromDom
+import Proofs.Placement
+import Proofs.PlacementValid
